@@ -1,6 +1,6 @@
 (* Properties/C08.v — Cancellation stops the execution promptly and is reported as its cause.
    (Retry-based compositions on Model/Exec.v; hedge: Properties/C09.v; async Cancel(): Properties/C15.v.) *)
-From FS Require Import Model.Exec Proofs.ExecProofs Corr.C08.
+From FS Require Import Model.Exec Proofs.ExecProofs Proofs.ExecEventsProofs Corr.C08.
 
 Theorem C08_cancel_result_is_cause : forall w c cr, is_canceled w c = Some cr ->
   match w_cell w with
@@ -36,3 +36,25 @@ Theorem C08_limiter_wait_interrupted : forall pos inst mw (inner inner' : layer)
   limiter_layer pos inst mw inner c w = limiter_layer pos inst mw inner' c w.
 Proof. exact limiter_wait_interrupted. Qed.
 Print Assumptions C08_limiter_wait_interrupted.
+
+(* a bulkhead turns a cancelled execution away -- on arrival or out of its wait -- with the error of the cancellation result
+   (ErrExecutionCanceled for ExecutionResult.Cancel(), ErrExceeded for a Timeout, else the context's error), whatever is
+   inside it *)
+Theorem C08_bulkhead_cancelled_reports_cause : forall pos inst mw (inner inner' : layer) c w,
+  (forall cr e, is_canceled w c = Some cr -> pr_err cr = Some e ->
+     bulkhead_layer pos inst mw inner c w = (failure_result e, w))
+  /\ (copy_err w c = None -> fst (nth inst (w_bulkheads w) (0, 0)) <= snd (nth inst (w_bulkheads w) (0, 0)) -> mw <> 0 ->
+      fst (wait w mw (Some c)) = true ->
+      let w1 := snd (wait w mw (Some c)) in
+      bulkhead_layer pos inst mw inner c w = bulkhead_layer pos inst mw inner' c w
+      /\ forall cr e, is_canceled w1 c = Some cr -> pr_err cr = Some e ->
+           bulkhead_layer pos inst mw inner c w = (failure_result e, w1)).
+Proof. exact bulkhead_cancelled_reports_cause. Qed.
+Print Assumptions C08_bulkhead_cancelled_reports_cause.
+
+(* Finding F16 (repaired by a fix: commit): the bulkhead used to report the context's error, which is context.Canceled
+   when the execution was cancelled through its ExecutionResult -- not the cause *)
+Theorem C08_bulkhead_reported_context_error_before_fix :
+  exists w c, copy_err w c = Some ECtxCanceled /\ cancel_error w c = EExecCanceled.
+Proof. exact bulkhead_reported_context_error_before_fix. Qed.
+Print Assumptions C08_bulkhead_reported_context_error_before_fix.
